@@ -1262,13 +1262,20 @@ fn run_case(c: &Case) -> String {
                             // middle of an X / C expansion) leaves nothing behind for the iterators that come after it
                             if c.seed % 4 == 1 {
                                 verif_hooks::set_seed_override(Some(c.seed));
-                                let _ = catch_unwind(AssertUnwindSafe(|| {
-                                    let mut pre = DriverOverrideW(Script::new(c, &tc.signals, Sh::default()));
+                                let pre_sh = Sh::default();
+                                let items = catch_unwind(AssertUnwindSafe(|| {
+                                    let mut pre = DriverOverrideW(Script::new(c, &tc.signals, pre_sh.clone()));
+                                    let mut n = 0usize;
                                     if let Ok(mut it) = tc.try_iter(&mut pre) {
-                                        let _ = it.next();
-                                        let _ = it.next();
+                                        n += it.next().is_some() as usize;
+                                        n += it.next().is_some() as usize;
                                     }
-                                }));
+                                    n
+                                }))
+                                .unwrap_or(0);
+                                // the abandoned iterator made at most one call per item it was asked for (plus the constructor's)
+                                let calls = pre_sh.borrow().log.len();
+                                out(&mut buf, &format!("PRERUN items={items} calls={calls}"));
                                 let _ = verif_hooks::take_rng_log();
                             }
                             if c.wdefault {
@@ -1279,6 +1286,58 @@ fn run_case(c: &Case) -> String {
                                 let sh = Sh::default();
                                 let mut d = DriverOverrideW(Script::new(c, &tc.signals, sh.clone()));
                                 run_dynamic(c, &tc, &mut d, &sh, &mut buf);
+                            }
+                            // the iterator's adaptor methods are the ones of `Iterator`: taking every second item with
+                            // nth(1) on a fresh iterator and an identical driver gives items 1, 3, 5, ... of the run above
+                            // and makes the same driver calls (only for callers that go on after error items)
+                            if c.cont && c.seed % 3 == 1 {
+                                let main_items: Vec<String> = buf
+                                    .lines()
+                                    .filter(|l| l.starts_with("ROW ") || l.starts_with("ITEM "))
+                                    .map(|l| l.to_string())
+                                    .collect();
+                                let main_calls = buf.lines().filter(|l| l.starts_with("CALL ")).count();
+                                let ended = buf.lines().any(|l| l == "END none");
+                                verif_hooks::set_seed_override(Some(c.seed));
+                                let sh2 = Sh::default();
+                                let verdict = catch_unwind(AssertUnwindSafe(|| {
+                                    let mut d2 = DriverOverrideW(Script::new(c, &tc.signals, sh2.clone()));
+                                    let mut d2d = DriverDefaultW(Script::new(c, &tc.signals, sh2.clone()));
+                                    let mut problems = String::new();
+                                    macro_rules! skiprun {
+                                        ($drv:expr) => {
+                                            if let Ok(mut it) = tc.try_iter($drv) {
+                                                let mut k = 0usize;
+                                                while 2 * k + 1 < main_items.len() {
+                                                    let got = match it.nth(1) {
+                                                        None => "NONE".to_string(),
+                                                        Some(Ok(row)) => row_line(&row),
+                                                        Some(Err(e)) => format!("ITEM err {}", iteration_err_s(&e, |d: &DrvError| d.0)),
+                                                    };
+                                                    if got != main_items[2 * k + 1] && problems.is_empty() {
+                                                        problems = format!("item {} via nth(1): [{:.60}] vs [{:.60}]", 2 * k + 1, got, main_items[2 * k + 1]);
+                                                    }
+                                                    k += 1;
+                                                }
+                                            }
+                                        };
+                                    }
+                                    if c.wdefault {
+                                        skiprun!(&mut d2d);
+                                    } else {
+                                        skiprun!(&mut d2);
+                                    }
+                                    problems
+                                }))
+                                .unwrap_or_else(|_| "PANIC".to_string());
+                                let calls2 = sh2.borrow().log.len();
+                                let want_calls = if ended || main_items.len() % 2 == 0 { main_calls } else { calls2 };
+                                let _ = verif_hooks::take_rng_log();
+                                if verdict.is_empty() && (calls2 <= main_calls) && (calls2 == want_calls || calls2 + 1 >= main_calls) {
+                                    out(&mut buf, "SKIPRUN same");
+                                } else {
+                                    out(&mut buf, &format!("SKIPRUN DIFFERENT {verdict} calls={calls2} main={main_calls}"));
+                                }
                             }
                         }
                         "static" => run_static(c, &tc, &mut buf),
